@@ -746,9 +746,11 @@ pub enum Layout {
     /// a block comment full of 2-, 3- and 4-byte characters between every pair of tokens, newline only after `;`
     /// (so that whatever an error points at is preceded by multi-byte characters on the same line)
     NonAsciiComments,
+    /// a lone carriage return between tokens (whitespace for the grammar, not a line terminator)
+    CrOnly,
 }
 
-pub const ALL_LAYOUTS: [Layout; 9] = [
+pub const ALL_LAYOUTS: [Layout; 10] = [
     Layout::Pretty,
     Layout::OneLine,
     Layout::TokenPerLine,
@@ -758,6 +760,7 @@ pub const ALL_LAYOUTS: [Layout; 9] = [
     Layout::PrettyCrlf,
     Layout::LineComments,
     Layout::NonAsciiComments,
+    Layout::CrOnly,
 ];
 
 /// Join tokens; also returns the byte offset range of every token.
@@ -796,6 +799,7 @@ pub fn join(toks: &[String], layout: Layout) -> (String, Vec<(usize, usize)>) {
                 }
                 Layout::Comments => s.push_str(" /* c; } */ "),
                 Layout::LineComments => s.push_str(" // é嗨 ; }\n"),
+                Layout::CrOnly => s.push('\r'),
                 Layout::NonAsciiComments => {
                     if prev == ";" {
                         s.push('\n');
